@@ -13,7 +13,7 @@ EXPLANATION = (
     "whose acceptance guard is exactly `isinstance(batch, int) and batch >= 0` with a raising fall-through; every service start assigns service_time from get_service_time "
     "of that customer (or the stored pre-emption option) and sets service_end_date = start + that service_time on the same path; the engine's sampling sites for the three "
     "kinds of sample the property names go through Distribution._sample, whose validity test is `(float or int) and s >= 0` else raise; each site indexes the distribution "
-    "table with its own node and the customer's/stream's class. A per-sample audit of a run (realised durations == logged samples) is not performed.")
+    "table with its own node and the customer's/stream's class. Every (node, class) stream samples from an object of its own: the three find_*_dists take the deep copy once per node and per class of that stream's own distribution. A per-sample audit of a run (realised durations == logged samples) is not performed.")
 RULE = "instances = arrival-stream writes, sampling call sites and service-start paths found on the tree, over all arrival/node views"
 
 
